@@ -79,6 +79,11 @@ def P13():
     return C("P13", kind="factory", quota=1, workers=1, second_pool=True, calls=[("imap", "list", 1, 1), ("imap", "list", 2, 1)])
 
 
+def Z1():
+    # two pools, two ordered imaps consumed alternately (zip): chunks may be held back in both reorder buffers at once
+    return C("Z1", workers=2, second_pool=True, zipped=True, calls=[("imap", "list", 2, 1), ("imap", "list", 2, 1)])
+
+
 def P11():
     # both generators are created up front and then consumed one after the other
     return C("P11", workers=1, precreate=True, calls=[("imap_unordered", "list", 2, 1), ("imap", "list", 1, 1)])
@@ -94,6 +99,11 @@ def L2():
 
 def E0():
     return C("E0", workers=2, calls=[("imap", "list", 0, 1)])
+
+
+def E2():
+    # bounded results queue and empty inputs: wake-up tokens that nobody consumed pile up in a queue of size 1
+    return C("E2", workers=1, rq=1, calls=[("imap", "list", 0, 1), ("imap_unordered", "list", 0, 1), ("imap", "list", 1, 1)])
 
 
 def U1():
